@@ -28,7 +28,11 @@ func (node *tagWidthratioNode) Execute(ctx *ExecutionContext, writer TemplateWri
 		return err
 	}
 
-	value := int(math.Floor(current.Float()/max.Float()*width.Float() + 0.5))
+	value := 0
+	if max.Float() != 0 {
+		// (a maximum of zero gives 0, as in Django, not the conversion of an infinity)
+		value = int(math.Floor(current.Float()/max.Float()*width.Float() + 0.5))
+	}
 
 	if node.ctxName == "" {
 		writer.WriteString(fmt.Sprintf("%d", value))
